@@ -451,8 +451,8 @@ class Lib:
                                     patterns=[z3.Select(seq_elems(r), x)]), heavy=True)
             it.ctx.assume(z3.Implies(seq_distinct(c.t), seq_distinct(r)), heavy=True)
             it.ctx.assume(z3.Length(r) <= z3.Length(c.t))
-            it.engine.assumed.add('A-seqsets: element set / distinctness of sequences as uninterpreted functions with lemma '
-                                  'instances at append, remove, membership, filtering and iteration')
+            it.engine.assumed.add('A-comprehension: [x for x in seq if p(x)] is a list whose element set is {x in seq | p(x)}, no longer '
+                                  'than seq and pairwise distinct if seq is')
             return VCell(VSeq(r, c.ety, 'list'), 'list')
         return VGenExpr(e, fr, c, kind)
 
